@@ -26,7 +26,7 @@ pub fn prop() -> Prop {
         ],
         subs: vec![
             Sub::enumerate("font_data", font_data),
-            Sub::tape("builtin_render", 60, 100_000, 5_000_000, builtin_render),
+            Sub::tape("builtin_render", 300, 100_000, 5_000_000, builtin_render),
             Sub::tape("custom_fonts", 80, 100_000, 5_000_000, custom_fonts),
         ],
     }
